@@ -30,8 +30,8 @@ LEVEL_TEXT = ("Fault enumeration: each fault class named by the property is appl
               "TreeBuilder and through OFXTree.parse with a header.")
 LEVEL_NOTE = "Trusts ref_sgml.py; truncation inside a multi-byte UTF-8 sequence is done at character level (the header layer is C05's business)."
 DESIGN_REF = "DESIGN.md §3 C08"
-MIN_COUNTERS = {"quick": {"illformed_cases": 20000, "benign_cases": 500, "via_OFXTree_parse": 500},
-                "thorough": {"illformed_cases": 1000000, "benign_cases": 8000, "via_OFXTree_parse": 100000}}
+MIN_COUNTERS = {"quick": {"via_reused_OFXTree": 8000, "via_interleaved_builders": 8000, "illformed_cases": 20000, "benign_cases": 500, "via_OFXTree_parse": 500},
+                "thorough": {"via_reused_OFXTree": 100000, "via_interleaved_builders": 100000, "illformed_cases": 1000000, "benign_cases": 8000, "via_OFXTree_parse": 100000}}
 
 TOKEN_RE = re.compile(r"<[^<>]*>")
 V1HDR = "OFXHEADER:100\r\nDATA:OFXSGML\r\nVERSION:160\r\nSECURITY:NONE\r\nENCODING:UNICODE\r\nCHARSET:NONE\r\nCOMPRESSION:NONE\r\nOLDFILEUID:NONE\r\nNEWFILEUID:NONE\r\n\r\n"
@@ -60,6 +60,39 @@ def lib_tree(text):
     return t.parse(io.BytesIO((V1HDR + text).encode("utf_8")))
 
 
+GOOD = "<OFX><SIGNONMSGSRSV1><SONRS><STATUS><CODE>0</CODE><SEVERITY>INFO</SEVERITY></STATUS></SONRS></SIGNONMSGSRSV1></OFX>"
+_REUSED = []
+
+
+def lib_tree_reused(text):
+    """The same through ONE long-lived OFXTree object that has parsed a good document before (as an application looping over
+    downloaded files does): the damaged one must still be refused - not answered with the previous document's tree."""
+    from ofxtools.Parser import OFXTree
+
+    if not _REUSED:
+        _REUSED.append(OFXTree())
+    t = _REUSED[0]
+    t.parse(io.BytesIO((V1HDR + GOOD).encode("utf_8")))
+    return t.parse(io.BytesIO((V1HDR + text).encode("utf_8")))
+
+
+def lib_interleaved(text):
+    """Two builders alive at once (as in a thread pool): the damaged body is fed to A, then B parses a good document from start to
+    end, then A is closed."""
+    from ofxtools.Parser import TreeBuilder
+
+    a = TreeBuilder()
+    a.feed(text)
+    b = TreeBuilder()
+    b.feed(GOOD)
+    if b.close() is None:
+        raise AssertionError("good document gave no tree")
+    return a.close()
+
+
+ROUTES = {"tb": lib_tb, "tree": lib_tree, "tree-reused": lib_tree_reused, "interleaved": lib_interleaved}
+HAS_TAG = re.compile(r"<[^<>]+>")
+
 AMBIGUOUS_CDATA = re.compile(r"<([A-Z0-9._]+)><!\[CDATA\[(?:(?!\]\]>).)*\]\]>\s+</\1>", re.S)
 
 
@@ -75,9 +108,10 @@ def judge(ctx, text, fault, via_tree=False):
         ill = None
     except ref_sgml.RefError as e:
         want, ill = None, str(e)
-    fn = lib_tree if via_tree else lib_tb
-    ctx.count("via_OFXTree_parse" if via_tree else "via_TreeBuilder")
-    case = {"text": text, "fault": fault, "via_tree": via_tree}
+    via = via_tree if isinstance(via_tree, str) else ("tree" if via_tree else "tb")
+    fn = ROUTES[via]
+    ctx.count({"tb": "via_TreeBuilder", "tree": "via_OFXTree_parse", "tree-reused": "via_reused_OFXTree", "interleaved": "via_interleaved_builders"}[via])
+    case = {"text": text, "fault": fault, "via_tree": via}
     try:
         root = fn(text)
         exc = None
@@ -101,7 +135,11 @@ def judge(ctx, text, fault, via_tree=False):
                      "stray-text": "stray-text", "second-root": "second-root"}.get(kind, kind)
             ctx.violation(f"accepted/{group}", f"{fault} -> parser returned <{root.tag}> for ill-formed body ({ill}): {text[-120:]!r}", case)
         elif exc is None and root is None:
-            ctx.count("returned_None_not_judged")
+            if HAS_TAG.search(text) and not text.lstrip().startswith("<!--"):
+                # at least one complete tag was there to be mis-nested: "it fails with an error" - saying nothing is not failing
+                ctx.violation("no-error/returned-None", f"{fault} via {via}: ill-formed body ({ill}) gave neither a tree nor an error: {text[-120:]!r}", case)
+            else:
+                ctx.count("returned_None_not_judged")  # not a single complete tag in the text
         else:
             ctx.count("refused_" + type(exc).__name__)
     else:
@@ -271,7 +309,7 @@ def run_shard(ctx):
         for fi, (text, fault) in enumerate(flist):
             if text == body:
                 continue
-            judge(ctx, text, fault, via_tree=(fi % 7 == 0))
+            judge(ctx, text, fault, via_tree=("tree" if fi % 7 == 0 else "tree-reused" if fi % 7 == 3 else "interleaved" if fi % 7 == 5 else "tb"))
             ctx.distinct(text)
             ctx.add("fault_kinds", fault["kind"])
         if thorough:
